@@ -31,6 +31,7 @@ func (i *SelectTagsPlanner) Process(ctx *shared.PlannerContext) (sql.ISelect, er
 
 	res := sql.NewSelect().
 		With(withMain, withPreSelectTags).
+		Distinct(true).
 		Select(sql.NewSimpleCol("key", "key")).
 		From(sql.NewSimpleCol(ctx.TracesAttrsDistTable, "traces_idx")).
 		AndWhere(sql.And(
@@ -39,7 +40,7 @@ func (i *SelectTagsPlanner) Process(ctx *shared.PlannerContext) (sql.ISelect, er
 			sql.Ge(sql.NewRawObject("traces_idx.timestamp_ns"), sql.NewIntVal(ctx.From.UnixNano())),
 			sql.Lt(sql.NewRawObject("traces_idx.timestamp_ns"), sql.NewIntVal(ctx.To.UnixNano())),
 			sql.NewIn(sql.NewRawObject("span_id"), sql.NewWithRef(withPreSelectTags)),
-		)).GroupBy(sql.NewRawObject("trace_id"), sql.NewRawObject("span_id"))
+		))
 	if ctx.Limit > 0 {
 		res.OrderBy(sql.NewOrderBy(sql.NewRawObject("key"), sql.ORDER_BY_DIRECTION_ASC)).
 			Limit(sql.NewIntVal(ctx.Limit))
